@@ -168,9 +168,21 @@ pub fn gen_spec_yaml(r: &mut Prng, depth: usize, indent: usize, out: &mut String
                 used.push(k);
             }
             out.push_str(&format!("{}init: \"{}\"\n", pad, used[r.below(n)]));
-            for k in used {
+            // sometimes all options have the same spec (the options then differ in name only)
+            let same = r.chance(1, 3);
+            let mut first = String::new();
+            for (i, k) in used.iter().enumerate() {
                 out.push_str(&format!("{}\"{}\":\n", pad, k));
-                gen_spec_yaml(r, depth - 1, indent + 2, out);
+                if same && i > 0 {
+                    out.push_str(&first);
+                } else {
+                    let mut sub = String::new();
+                    gen_spec_yaml(r, depth - 1, indent + 2, &mut sub);
+                    if i == 0 {
+                        first = sub.clone();
+                    }
+                    out.push_str(&sub);
+                }
             }
         }
         7 => {
